@@ -103,7 +103,13 @@ def run_tlc(
     res.cmd = " ".join(cmd)
     t0 = time.time()
     try:
-        p = subprocess.run(cmd, cwd=spec_dir, env=e, capture_output=True, text=True, timeout=timeout)
+        for attempt in range(3):
+            p = subprocess.run(cmd, cwd=spec_dir, env=e, capture_output=True, text=True, timeout=timeout)
+            # 143 / 137: the JVM was killed from outside (not a verdict, not a TLC error): run it again
+            if p.returncode not in (143, 137, -15, -9):
+                break
+            shutil.rmtree(meta, ignore_errors=True)
+            os.makedirs(meta, exist_ok=True)
     except subprocess.TimeoutExpired as ex:
         raise TLCError("TLC timed out after %ss: %s" % (timeout, res.cmd)) from ex
     finally:
@@ -118,7 +124,12 @@ def run_tlc(
     m = _RE_DEPTH.search(out)
     if m:
         res.depth = int(m.group(1))
-    for m in _RE_COV.finditer(out):
+    # with -coverage TLC prints the statistics periodically: only the last block counts
+    cov_text = out
+    k = out.rfind("The coverage statistics at")
+    if k >= 0:
+        cov_text = out[k:]
+    for m in _RE_COV.finditer(cov_text):
         name = m.group(1)
         d, t = int(m.group(3)), int(m.group(4))
         od, ot = res.coverage.get(name, (0, 0))
